@@ -54,7 +54,8 @@ Definition run (c : case) : verdict :=
     flag 14 (seqb (from_rel_link_url (to_rel_link_url K (o_parent c)) (o_parent c)) (o_self_rt c)) in
   let dom1 := canonicalb K && canonical_dirb D && negb (ends_with MD K) in
   let K' := o_from_rel c in
-  let dom2 := canonicalb K' && canonical_dirb D && negb (ends_with MD K') in
+  (* the domain of RelPathLaws.C15_rewrite: every directory text, every url text, resolved key not ending in `.md` *)
+  let dom2 := negb (ends_with MD K') in
   let prop :=
     (* 1: the link written for K from D resolves back to K *)
     flag 1 (implb dom1 (seqb (o_rt c) K)) ++
